@@ -11,52 +11,47 @@ import (
 func init() { register("C19", "proof", checkC19) }
 
 func checkC19(c *Ctx, r *Report) {
-	r.Explanation = "G4 path rules over the SSA control-flow graph of GenerateKey and SignHashed (and, by wrapper agreement, Sign and SignZa), covering every position of the first failure at once: (1) every use of the reader parameter is the first argument of io.ReadFull, a comparison with nil, or a pass-through to a repository function that satisfies the same rule; (2) the buffer is 32 bytes and is the very buffer later used as key/nonce; (3) between the call and the test `err != nil` no instruction reads the buffer; (4) on the failing arm every path reaches a return whose error operand is provably non-nil and whose public-key/signature operands are nil, without a back edge to the draw; (5) GenerateKey tests rand == nil before the first draw; (6) a rejected candidate is followed by a new ReadFull into the whole buffer."
+	r.Explanation = "Decided on the outcomes of a path-by-path interpretation in the protocol domain (checker/proto*.go) of GenerateKey, SignHashed, Sign and SignZa. Every read of the random source forks into a successful full read (the buffer becomes a fresh symbolic draw) and a failed read (the buffer becomes unusable: any later use of its bytes stops the interpretation, rule FOLLOWED, and an error is pending); the source may only be used through io.ReadFull (or io.ReadAtLeast with min = len(buf)) - any other use is not modelled and reported. Rules: SIGN-ERROR-RESULTS / KEYGEN-ERROR-RESULTS (every outcome with an error returns nil signature parts resp. coordinates), the converse (no outcome returns a signature or key after a failed read: SIGN-NONCE / KEYGEN-DRAW require the last draw to be a full successful one), SIGN-REDRAW / KEYGEN-REDRAW (a rejected candidate leads to a new full draw), KEYGEN-SOURCE (nil source). This covers every position of the first failure at once because the fork happens at every read. NOT decided: io.ReadFull's own contract."
 	r.Trusted = []string{"io.ReadFull contract: err != nil iff fewer than len(buf) bytes were read; short reads are retried", "go/ssa"}
 	p, err := LoadRepo(c.Repo, "amd64")
 	if err != nil {
 		r.Fatalf("%v", err)
 		return
 	}
-	c19Func(r, p, "sm2.GenerateKey", []int{1, 2}, true)
-	c19Func(r, p, "sm2.SignHashed", []int{0, 1}, false)
-	// wrapper agreement: Sign and SignZa hand the reader through unchanged
-	for _, w := range []struct{ fn, to string }{{"sm2.Sign", "SignZa"}, {"sm2.SignZa", "SignHashed"}} {
-		fn := p.MustFunc(r, w.fn)
-		if fn == nil {
-			continue
-		}
-		var rd *ssa.Parameter
-		for _, prm := range fn.Params {
-			if prm.Name() == "rand" {
-				rd = prm
-			}
-		}
-		if rd == nil {
-			r.Fatalf("unresolved anchor: reader parameter of %s", w.fn)
-			continue
-		}
-		ok := true
-		n := 0
-		for _, ref := range *rd.Referrers() {
-			call, isCall := ref.(*ssa.Call)
-			if !isCall || call.Call.StaticCallee() == nil || call.Call.StaticCallee().Name() != w.to || call.Call.Args[0] != ssa.Value(rd) {
-				ok = false
-				continue
-			}
-			n++
-			// the wrapper returns the callee's results unchanged
-			for _, cr := range *call.Referrers() {
-				if _, isRet := cr.(*ssa.Return); !isRet {
-					if _, isEx := cr.(*ssa.Extract); !isEx {
-						ok = false
-					}
-				}
-			}
-		}
-		r.Check(ok && n == 1, "READER-PASS-THROUGH", w.fn+" -> "+w.to, p.Pos(fn.Pos()), "the reader is only handed to "+w.to+", whose results are returned unchanged")
+	own := map[string]bool{"SIGN-ERROR-RESULTS": true, "SIGN-REDRAW": true, "SIGN-NONCE": true, "KEYGEN-ERROR-RESULTS": true, "KEYGEN-REDRAW": true, "KEYGEN-SOURCE": true, "KEYGEN-DRAW": true}
+	if ps := newProtoSpec(r, p, "sm2.GenerateKey"); ps != nil {
+		ps.only = own
+		ps.specGenerateKey()
+		c19FailedReads(r, ps)
 	}
-	r.Floor("draw_sites", 2)
+	za := zaTerm(pParam("id"), pParam("pubx"), pParam("puby"))
+	for _, w := range []struct {
+		fn string
+		e  *pt
+	}{{"sm2.SignHashed", pParam("e")}, {"sm2.SignZa", pOp("sm3", pOp("cat", pParam("za"), pParam("msg")))}, {"sm2.Sign", pOp("sm3", pOp("cat", za, pParam("msg")))}} {
+		if ps := newProtoSpec(r, p, w.fn); ps != nil {
+			ps.only = own
+			ps.specSign(w.e, pParam("priv"))
+			c19FailedReads(r, ps)
+		}
+	}
+	r.Floor("failed_read_outcomes", 4)
+}
+
+// c19FailedReads: every outcome after a failed read is an error outcome
+func c19FailedReads(r *Report, ps *protoSpec) {
+	n, bad := 0, 0
+	for _, o := range ps.outs {
+		if o.st.readErrs == 0 || o.restart {
+			continue
+		}
+		n++
+		if len(o.vals) == 0 || !isErrVal(o.vals[len(o.vals)-1]) {
+			bad++
+		}
+	}
+	r.Count("failed_read_outcomes", n)
+	r.Check(n > 0 && bad == 0, "FAILED-READ-IS-ERROR", ps.name, ps.p.Pos(ps.fn.Pos()), fmt.Sprintf("%d outcomes follow a failed read of the random source; each returns a non-nil error", n)+ifs(bad > 0, fmt.Sprintf(": %d of them do not", bad)))
 }
 
 // c19Func checks one drawing function. nilResults are the indices of the results that must be nil on the error arm.
